@@ -327,17 +327,26 @@ def run_fit_phase(acc, kind, N, epochs, bound, only=None):
 
     def body(tape):
         st, arch, params = F.fresh_state(kind, 2)
-        snaps, grads = [], []
-        cb = L.callbacks.LambdaCallback(
-            on_batch_start=lambda s_, e, b: snaps.append(named_params(s_)),
-            on_batch_end=lambda s_, e, b: grads.append({NAME_MAP[n_]: (p_.grad.detach().numpy().copy() if p_.grad is not None else None) for n_, p_ in s_.rbm_ph.named_parameters()}))
+        from .c06 import make_rec, named_from_optimizer
+        log = []
         dec = F.FitDecider(tape)
         dec.small = True
         try:
             with Owned(dec):
-                call(st.fit, data, epochs=epochs, pos_batch_size=N, k=1, lr=0.3, input_bases=bases_arr, callbacks=[cb])
+                # a recording optimizer sees parameters and gradients at the moment of the step (independent of
+                # where the training loop clears gradients)
+                call(st.fit, data, epochs=epochs, pos_batch_size=N, k=1, lr=0.3, input_bases=bases_arr, optimizer=make_rec(log))
         except LibRaised as e:
             return [(f"gradient:fit-raised:{e.kind}", dict(error=str(e)))], 0
+        snaps, grads = [], []
+        for entry in log:
+            b_ = named_from_optimizer(st, entry, "before")
+            g_ = named_from_optimizer(st, entry, "grads")
+            if b_ is None or g_ is None:
+                return [("gradient:optimizer-does-not-hold-the-networks-parameters", None)], len(log)
+            # rebuild the by-name parameter read-out in named_params() form (numpy arrays keyed W/U/b/c/d)
+            snaps.append(b_)
+            grads.append(g_[1])
         out = []
         for step, (named, g) in enumerate(zip(snaps, grads)):
             exp = []
